@@ -49,6 +49,7 @@ PLUMBING = {
 
 
 def run(prog, chk):
+    single_dispatch_entry(prog, chk)
     limit_predicates(prog, chk)
     depth_pairing(prog, chk)
     limit_errors_final(prog, chk)
@@ -534,6 +535,11 @@ def limit_errors_final(prog, chk):
                         leak_after.append(name)
                     if R.assigns_result_variant(pt, reg, "Ok") and not R.assigns_result_variant(pt, reg, "Err") and not _returns_call_result(pt, reg):
                         leak_after.append(name + ":returns-Ok")
+                    for other in ("MultiError", "MessageError", "InvalidData", "ParseError"):
+                        if R.constructs_variant(pt, reg, ERR, other):
+                            # the limit error is wrapped into another error: an enclosing process_tags no longer sees a limit
+                            # variant, treats it as an ordinary failure and queues the container for retry
+                            leak_after.append(f"{name}:re-wrapped-as-{other}")
             chk.ob(
                 bool(filtering) and every_path_filtered and not leak_after,
                 "A13.limit-final",
@@ -761,6 +767,27 @@ def _derives_from_map_lookup(body, op, depth=6):
                 if "HashMap" in c.inst and c.path.split("::")[-1] == "get":
                     return True
     return False
+
+
+def single_dispatch_entry(prog, chk):
+    """depth is counted in one place, the dispatcher `<SvgElement as EventGen>::generate_events`: every element-specific
+    generate_events (loop, for, reuse, g, var, config, if, specs, defaults, containers, other) is called from there and
+    from nowhere else, so no kind of element is processed without being counted against depth_limit"""
+    import collections
+
+    GEN_ = "<svgdx::element::SvgElement as svgdx::transform::EventGen>::generate_events"
+    rev = collections.defaultdict(set)
+    for a, ts in prog.edges.items():
+        for t in ts:
+            rev[t].add(a)
+    n = 0
+    for b in prog.bodies.values():
+        if not b.path.endswith("as svgdx::transform::EventGen>::generate_events") or b.path == GEN_ or b.path.startswith("<svgdx::events::Tag "):
+            continue
+        n += 1
+        callers = sorted(prog.bodies[x].path for x in rev[b.id])
+        chk.ob(callers == [GEN_], "A5.depth-entry", b.short.split(" as ")[0].lstrip("<"), b.where(), f"{b.short.split(' as ')[0].lstrip('<')} is processed only through the depth-counting dispatcher", f"{b.short} is also called from {[c for c in callers if c != GEN_]}: elements of that kind reach their handler without passing inc_depth(), so they are not counted against depth_limit (accepted at depth limit+1)")
+    chk.floor("A5.depth-entry", n, 11, "element-specific generate_events implementation")
 
 
 def depth_test_unconditional(prog, chk):
